@@ -22,7 +22,9 @@ use antlr4rust::errors::ANTLRError;
 use antlr4rust::parser::ParserNodeType;
 use antlr4rust::parser_rule_context::ParserRuleContext;
 use antlr4rust::recognizer::Recognizer;
-use antlr4rust::token::{CommonToken, Token};
+use antlr4rust::int_stream::IntStream;
+use antlr4rust::token::{CommonToken, Token, TOKEN_DEFAULT_CHANNEL};
+use antlr4rust::token_stream::TokenStream;
 use antlr4rust::token_factory::TokenFactory;
 use antlr4rust::tree::{ParseTree, ParseTreeVisitorCompat, VisitChildren};
 use antlr4rust::{InputStream, Parser as AntlrParser};
@@ -190,7 +192,16 @@ impl Parser {
         // todo! might want to avoid this cloning here...
         self.helper.source_info.source = source.into();
 
-        let mut prsr = gen::CELParser::new(CommonTokenStream::new(lexer));
+        let mut tokens = CommonTokenStream::new(lexer);
+        // A fresh stream is positioned on the very first token even when that token is on the hidden
+        // channel (leading whitespace or comment); the parser must start at the first visible one.
+        if tokens
+            .lt(1)
+            .is_some_and(|token| token.get_channel() != TOKEN_DEFAULT_CHANNEL)
+        {
+            tokens.consume();
+        }
+        let mut prsr = gen::CELParser::new(tokens);
         prsr.remove_error_listeners();
         prsr.add_error_listener(Box::new(ParserErrorListener {
             parse_errors: parse_errors.clone(),
